@@ -82,10 +82,41 @@ pub fn read_slp_from<R: std::io::Read + std::io::Seek>(r: R, skip: bool, hash: b
 	}
 }
 
+/// A sink that accepts at most `max` bytes per `write` call (what a pipe or socket does).
+pub struct ChunkWriter {
+	pub out: Vec<u8>,
+	pub max: usize,
+}
+
+impl std::io::Write for ChunkWriter {
+	fn write(&mut self, buf: &[u8]) -> std::io::Result<usize> {
+		let n = buf.len().min(self.max);
+		self.out.extend_from_slice(&buf[..n]);
+		Ok(n)
+	}
+	fn flush(&mut self) -> std::io::Result<()> {
+		Ok(())
+	}
+}
+
+fn write_variant(g: &Game) -> u64 {
+	if std::env::var("VERIF_PLAIN_READS").is_ok() {
+		return 0;
+	}
+	(crate::util::xx(&g.start.bytes.0) ^ g.frames.len() as u64 ^ g.metadata.as_ref().map_or(7, |m| m.len() as u64)) % 4
+}
+
+/// The sink, like the source, is rotated: 2/4 a plain Vec, else a writer taking 1 or 5 bytes per call.
 pub fn write_slp(g: &Game) -> Result<Vec<u8>, Fail> {
+	let variant = write_variant(g);
 	match catch(|| {
-		let mut out = Vec::new();
-		slippi::write(&mut out, g).map(|_| out)
+		if variant >= 2 {
+			let mut w = ChunkWriter { out: Vec::new(), max: if variant == 2 { 1 } else { 5 } };
+			slippi::write(&mut w, g).map(|_| w.out)
+		} else {
+			let mut out = Vec::new();
+			slippi::write(&mut out, g).map(|_| out)
+		}
 	}) {
 		Ok(Ok(v)) => Ok(v),
 		Ok(Err(e)) => Err(Fail::Err(e.to_string())),
@@ -103,9 +134,16 @@ pub fn comp_of(c: u8) -> Option<arrow2::io::ipc::write::Compression> {
 
 pub fn write_slpp(g: Game, comp: u8) -> Result<Vec<u8>, Fail> {
 	let opts = ppi::ser::Opts { compression: comp_of(comp) };
+	let variant = write_variant(&g);
 	match catch(move || {
-		let mut out = Vec::new();
-		ppi::write(&mut out, g, Some(&opts)).map(|_| out).map_err(|e| e.to_string())
+		if variant == 3 {
+			let mut w = ChunkWriter { out: Vec::new(), max: 509 };
+			ppi::write(&mut w, g, Some(&opts)).map_err(|e| e.to_string())?;
+			Ok(w.out)
+		} else {
+			let mut out = Vec::new();
+			ppi::write(&mut out, g, Some(&opts)).map(|_| out).map_err(|e| e.to_string())
+		}
 	}) {
 		Ok(Ok(v)) => Ok(v),
 		Ok(Err(e)) => Err(Fail::Err(e)),
